@@ -214,6 +214,22 @@ def check_refine(case, ctx):
     require(np.array_equal(ref.labels, fr.labels)
             and list(ref.slices) == list(fr.slices)
             and np.array_equal(ref.areas, fr.areas), 'output_attrs_vs_fresh')
+    # ---- SourceFinder(deblend=True) == detect_sources + deblend_sources
+    if not case.get('gap') and case.get('labels_subset') is None \
+            and case['relabel'] and case['det_npixels'] == case['npixels']:
+        from photutils.segmentation import SourceFinder
+        with warnings.catch_warnings():
+            warnings.simplefilter('ignore')
+            sf = SourceFinder(case['npixels'], connectivity=case['conn'],
+                              deblend=True, nlevels=case['nlevels'],
+                              contrast=case['contrast'], mode=case['mode'],
+                              relabel=True, progress_bar=False)
+            out = sf(img, case['thr'] + case.get('pedestal', 0.0))
+        ctx.event('sourcefinder_compared')
+        if out is None or not np.array_equal(out.data, ref.data):
+            raise Violation('sourcefinder_differs',
+                            'SourceFinder(deblend=True) differs from '
+                            'detect_sources + deblend_sources')
     # ---- schedules: nproc >= 2 with permuted completion order
     ntasks = None
     nonid = False
@@ -265,7 +281,7 @@ def refine_cases(draw):
                        'q': draw(st.floats(0.6, 1.0)),
                        'theta': draw(st.floats(0, 3.14)), 'comps': comps})
     nsched = draw(st.integers(1, 3))
-    return {
+    case = {
         'shape': [ny, nx], 'groups': groups,
         'noise_sigma': draw(st.sampled_from([0.0, 0.2, 0.5])),
         'noise_seed': draw(st.integers(0, 2**31 - 1)),
@@ -273,7 +289,7 @@ def refine_cases(draw):
         'thr': draw(st.floats(0.8, 4.0)),
         'det_npixels': draw(st.integers(3, 8)),
         'conn': draw(st.sampled_from([8, 8, 4])),
-        'npixels': draw(st.integers(1, 12)),
+        'npixels': draw(st.one_of(st.integers(1, 12), st.just(-1))),
         'nlevels': draw(st.sampled_from([1, 2, 8, 16, 32])),
         'contrast': draw(st.sampled_from([0.0, 0.001, 0.001, 0.001, 0.01, 0.05, 0.3, 1])),
         'mode': draw(st.sampled_from(['exponential', 'linear', 'sinh'])),
@@ -288,6 +304,9 @@ def refine_cases(draw):
                       for _ in range(nsched)],
         'real_pool': draw(st.sampled_from([None, None, None, 2, 3])),
     }
+    if case['npixels'] == -1:      # same npixels for detection and deblending
+        case['npixels'] = case['det_npixels']
+    return case
 
 
 SUBCHECKS = [
